@@ -19,17 +19,20 @@ import (
 // Runner drives one real server sequentially and writes the trace the model
 // driver consumes (calls, replies, changed logical blocks, allocator counts).
 type Runner struct {
-	sz       uint64
-	d        *SDisk
-	srv      *nfs.Nfs
-	w        *bufio.Writer
-	du       *Dumper
-	handles  map[int][]byte
-	autoIdle bool
-	noDump   bool
-	nops     int
-	hist     map[string]int // proc/status histogram
-	tr       *tracer
+	sz          uint64
+	d           *SDisk
+	srv         *nfs.Nfs
+	w           *bufio.Writer
+	du          *Dumper
+	handles     map[int][]byte
+	autoIdle    bool
+	noDump      bool
+	nops        int
+	hist        map[string]int // proc/status histogram
+	tr          *tracer
+	subId       int
+	checkpoints int
+	noCache     bool // skip the R-cache dump (workloads with thousands of read-only steps)
 }
 
 func NewRunner(sz uint64, w *bufio.Writer) *Runner {
@@ -91,11 +94,27 @@ func (r *Runner) scanHi() uint64 {
 }
 
 func (r *Runner) checkpoint(quiescent bool) {
+	// nothing was committed since the last checkpoint: the logical disk and the caches' relation to it
+	// are unchanged (the installer only moves committed data from the log to its home)
+	clean := false
+	if r.tr != nil && r.checkpoints > 0 {
+		r.tr.mu.Lock()
+		clean = !r.tr.dirty
+		r.tr.dirty = false
+		r.tr.mu.Unlock()
+	}
+	r.checkpoints++
+	if clean && quiescent {
+		st := r.srv.VerifState()
+		fmt.Fprintf(r.w, "A %d %d %d\n", st.Balloc.NumFree(), st.Ialloc.NumFree(), b2i(quiescent))
+		fmt.Fprintf(r.w, "E\n")
+		return
+	}
 	if !r.noDump {
 		r.du.Dump(r.w, 513, r.scanHi(), logicalReader(r.srv))
 	}
 	st := r.srv.VerifState()
-	if quiescent && !r.noDump {
+	if quiescent && !r.noDump && !r.noCache {
 		// R-cache: what the server holds in memory, to be compared with the disk by the model driver
 		ents := st.Icache.VerifEntries()
 		ids := make([]uint64, 0, len(ents))
@@ -139,8 +158,64 @@ func (r *Runner) Restart() {
 	r.attachTracer()
 }
 
+// Enum pages through a directory, passing back the cookie of the last entry received, until
+// end-of-directory; optionally the directory changes between pages.
+func (r *Runner) Enum(o Op) {
+	fmt.Fprintf(r.w, "M enum-begin %d\n", o.Id)
+	cookie := uint64(0)
+	how := "eof"
+	var created []string
+	for pages := 0; ; pages++ {
+		r.subId++
+		sub := Op{Id: 1000000 + r.subId, Proc: "readdir", H: o.H, Cookie: cookie, Count: o.Count}
+		if o.Mode == 1 {
+			sub.Proc = "readdirplus"
+			sub.Dircount, sub.Maxcount = o.Dircount, o.Maxcount
+		}
+		rep := r.Step(sub)
+		if rep.Code != 0 || rep.Kind != "dir" {
+			how = "error"
+			break
+		}
+		if len(rep.Ents) > 0 {
+			cookie = rep.Ents[len(rep.Ents)-1].Cookie
+		}
+		if rep.Eof {
+			break
+		}
+		if len(rep.Ents) == 0 {
+			how = "stuck"
+			break
+		}
+		if pages > 600 {
+			how = "overrun"
+			break
+		}
+		if o.Stable == 1 { // mutate between pages: add an entry, or remove one added earlier
+			r.subId++
+			if pages%2 == 0 {
+				n := fmt.Sprintf("zmut%d_%d", o.Id, pages)
+				r.Step(Op{Id: 1000000 + r.subId, Proc: "create", H: o.H, Name: n})
+				created = append(created, n)
+			} else if len(created) > 0 {
+				r.Step(Op{Id: 1000000 + r.subId, Proc: "remove", H: o.H, Name: created[0]})
+				created = created[1:]
+			}
+		}
+	}
+	for _, n := range created {
+		r.subId++
+		r.Step(Op{Id: 1000000 + r.subId, Proc: "remove", H: o.H, Name: n})
+	}
+	fmt.Fprintf(r.w, "M enum-end %d %s\n", o.Id, how)
+}
+
 // Step executes one operation and emits its trace lines.
 func (r *Runner) Step(o Op) Reply {
+	if o.Proc == "enum" {
+		r.Enum(o)
+		return Reply{Kind: "st"}
+	}
 	r.nops++
 	switch {
 	case o.Proc == "restart":
